@@ -416,7 +416,8 @@ def lib_extern():
         "export_names": ["e1", "E1", "url=<https://x>"],
         "def_names": ["t1", "T1", "E1", "url=<https://x>"],
         "valid_names": ["k", "K", "e1", "E1", "t1", "T1", "url=<https://x>", "[method]r.m"],
-        "deftypes": {"tb": ("value", []), "td": ("value", ["tb"])},
+        # tw: the world type of a registered package (a type without an id of its own)
+        "deftypes": {"tb": ("value", []), "td": ("value", ["tb"]), "tw": ("world", [])},
     }
 
 
